@@ -2,6 +2,8 @@ import Mathlib.Data.List.Nodup
 import Proofs.RingConv
 import Proofs.RingGenEq
 import Proofs.ReorgGenEq
+import Proofs.MaSampleGenEq
+import Mathlib.Data.List.Perm.Subperm
 
 /-!
 # C09 — replay buffers hold exactly the most recent transitions, each one intact
@@ -639,4 +641,457 @@ example : (run 3 [[1, 2], [3, 4], [5]]).size = 3 ∧ (run 3 [[1, 2], [3, 4], [5]
 example : ∀ xs ∈ [[1, 2], [3, 4], [5]], xs.length ≤ 3 := by decide
 example : ((Deq.empty 2).pushMany [1, 2, 3]).items = [2, 3] := by decide
 
+end Ring
+
+namespace Ring
+open ReorgGen MaSampleGen
+
+/-! ## read side of `MultiAgentReplayBuffer`: `sample` / `_process_transition` / `stack_transitions`
+(model: `Ring.maSample`; generated: `Gen/MaSampleGen.lean`; equalities: `Proofs/MaSampleGenEq.lean`) -/
+section MaSample
+variable {κ α : Type} [DecidableEq κ]
+
+/-- pointwise reading of `optAll (l.map g) = some out` -/
+theorem optAll_map_spec {β γ : Type} (g : β → Option γ) : ∀ (l : List β) (out : List γ), optAll (l.map g) = some out →
+    out.length = l.length ∧ ∀ (i : Nat) (x : β), l[i]? = some x → ∃ y, g x = some y ∧ out[i]? = some y
+  | [], out, h => by
+    simp only [List.map_nil, optAll, Option.some.injEq] at h
+    subst h; simp
+  | b :: l, out, h => by
+    rw [List.map_cons, optAll_cons] at h
+    cases hg : g b with
+    | none => simp [hg] at h
+    | some y0 =>
+      cases hr : optAll (l.map g) with
+      | none => simp [hg, hr] at h
+      | some ys =>
+        simp only [hg, hr, Option.map_some, Option.some.injEq] at h
+        subst h
+        obtain ⟨hl, hp⟩ := optAll_map_spec g l ys hr
+        refine ⟨by simp [hl], ?_⟩
+        intro i x hx
+        cases i with
+        | zero => simp only [List.getElem?_cons_zero, Option.some.injEq] at hx; subst hx; exact ⟨y0, hg, by simp⟩
+        | succ i => simp only [List.getElem?_cons_succ] at hx ⊢; exact hp i x hx
+
+/-- row `r` of a stacked value holds exactly the members of the entry `e` (same container kind; for a dict the keys
+    of the batch, for a tuple its member positions) -/
+def Val.rowIs (v : Val κ α) (r : Nat) (e : Ent κ α) : Prop :=
+  match v with
+  | Val.arr rows => ∃ x, rows[r]? = some x ∧ e = Ent.arr x
+  | Val.dict m => e.isDict = true ∧ ∀ (i : Nat) (p : κ × List α), m[i]? = some p → ∃ x, p.2[r]? = some x ∧ e.getKey p.1 = some x
+  | Val.tup m => e.isTup = true ∧ ∀ (i : Nat) (rows : List α), m[i]? = some rows → ∃ x, rows[r]? = some x ∧ e.getIdx i = some x
+
+/-- **`stack_transitions` keeps every row**: row `r` of the stacked value is entry `r` of the batch, member by member;
+    dict keys / tuple length are those of the first entry -/
+theorem C09_stack_rows (es : List (Ent κ α)) (w : Val κ α) (h : stackEnts es = some w) :
+    ∀ r e, es[r]? = some e → Val.rowIs w r e := by
+  intro r e hre
+  cases es with
+  | nil => simp [stackEnts] at h
+  | cons e0 rest =>
+    rcases e0 with x | kv | xs
+    · simp only [stackEnts] at h
+      cases ho : optAll ((Sum.inl x :: rest : List (Ent κ α)).map Ent.asArr) with
+      | none => rw [ho] at h; simp at h
+      | some rows =>
+        rw [ho] at h; simp only [Option.map_some, Option.some.injEq] at h
+        subst h
+        obtain ⟨_, hp⟩ := optAll_map_spec Ent.asArr _ rows ho
+        obtain ⟨y, hy, hry⟩ := hp r e hre
+        refine ⟨y, hry, ?_⟩
+        rcases e with x' | kv' | xs' <;> simp [Ent.asArr] at hy
+        subst hy; rfl
+    · simp only [stackEnts] at h
+      cases hall : (Sum.inr (Sum.inl kv) :: rest : List (Ent κ α)).all Ent.isDict with
+      | false => rw [hall] at h; simp at h
+      | true =>
+        rw [hall] at h; simp only [if_true] at h
+        cases ho : optAll (kv.map (fun p => (optAll ((Sum.inr (Sum.inl kv) :: rest : List (Ent κ α)).map
+            (fun e => e.getKey p.1))).map (fun rows => (p.1, rows)))) with
+        | none => rw [ho] at h; simp at h
+        | some m =>
+          rw [ho] at h; simp only [Option.map_some, Option.some.injEq] at h
+          subst h
+          refine ⟨List.all_eq_true.mp hall e (List.mem_of_getElem? hre), ?_⟩
+          intro i p hmp
+          obtain ⟨hl, hp⟩ := optAll_map_spec _ kv m ho
+          have hi : i < kv.length := by
+            have := (List.getElem?_eq_some_iff.mp hmp).1; omega
+          obtain ⟨y, hy, hmy⟩ := hp i kv[i] (List.getElem?_eq_getElem hi)
+          rw [hmp] at hmy
+          cases hrows : optAll ((Sum.inr (Sum.inl kv) :: rest : List (Ent κ α)).map (fun e => e.getKey kv[i].1)) with
+          | none => rw [hrows] at hy; simp at hy
+          | some rows =>
+            rw [hrows] at hy; simp only [Option.map_some, Option.some.injEq] at hy
+            simp only [Option.some.injEq] at hmy
+            subst hmy; subst hy
+            obtain ⟨_, hq⟩ := optAll_map_spec _ _ rows hrows
+            obtain ⟨x, hx, hrx⟩ := hq r e hre
+            exact ⟨x, hrx, hx⟩
+    · simp only [stackEnts] at h
+      cases hall : (Sum.inr (Sum.inr xs) :: rest : List (Ent κ α)).all Ent.isTup with
+      | false => rw [hall] at h; simp at h
+      | true =>
+        rw [hall] at h; simp only [if_true] at h
+        cases ho : optAll ((List.range xs.length).map (fun i => optAll ((Sum.inr (Sum.inr xs) :: rest : List (Ent κ α)).map
+            (fun e => e.getIdx i)))) with
+        | none => rw [ho] at h; simp at h
+        | some m =>
+          rw [ho] at h; simp only [Option.map_some, Option.some.injEq] at h
+          subst h
+          refine ⟨List.all_eq_true.mp hall e (List.mem_of_getElem? hre), ?_⟩
+          intro i rows hmp
+          obtain ⟨hl, hp⟩ := optAll_map_spec _ _ m ho
+          have hi : i < xs.length := by
+            have := (List.getElem?_eq_some_iff.mp hmp).1; simp at hl; omega
+          obtain ⟨y, hy, hmy⟩ := hp i i (by simp [hi])
+          rw [hmp] at hmy
+          simp only [Option.some.injEq] at hmy
+          subst hmy
+          obtain ⟨_, hq⟩ := optAll_map_spec _ _ rows hy
+          obtain ⟨x, hx, hrx⟩ := hq r e hre
+          exact ⟨x, hrx, hx⟩
+
+/-- **what `sample` returns, cell by cell**: it raises unless `0 ≤ k ≤ len`; otherwise the batch has one dict per field
+    name (in `field_names` order), each listing every agent (in `agent_ids` order), and the value at (field `f`, agent
+    `a`) is the stack of the entries stored for (`f`, `a`) in the drawn experiences `mem[draw[0]], mem[draw[1]], …`,
+    in draw order, then cast (flag fields) and converted -/
+theorem C09_masample_cells (cast tt : α → α) (names : List String) (agents : List κ) (mem : List (Trans κ α)) (k : Int)
+    (draw : List Nat) (batch : List (Field κ α)) (h : maSample cast tt names agents mem k draw = some batch) :
+    (0 ≤ k ∧ k ≤ (mem.length : Int)) ∧ batch.length = names.length ∧
+    ∃ exps, optAll (draw.map (fun i => mem[i]?)) = some exps ∧ exps.length = draw.length ∧
+      (∀ (r i : Nat), draw[r]? = some i → ∃ e, mem[i]? = some e ∧ exps[r]? = some e) ∧
+      ∀ (j : Nat) (f : String), names[j]? = some f → ∃ fld, batch[j]? = some fld ∧ fld.length = agents.length ∧
+        ∀ (n : Nat) (a : κ), agents[n]? = some a → ∃ v es w, fld[n]? = some (a, v) ∧
+          maColumn names exps f a = some es ∧ stackEnts es = some w ∧ maPost cast tt f w = some v := by
+  unfold maSample at h
+  by_cases hk : k < 0 ∨ k > (mem.length : Int)
+  · simp [hk] at h
+  · rw [if_neg hk] at h
+    cases hd : optAll (draw.map (fun i => mem[i]?)) with
+    | none => rw [hd] at h; simp at h
+    | some exps =>
+      rw [hd] at h
+      simp only [Option.bind_some] at h
+      cases hp : maProcess cast tt names agents exps with
+      | none => rw [hp] at h; simp at h
+      | some t =>
+        rw [hp] at h
+        simp only [Option.map_some, Option.some.injEq] at h
+        subst h
+        obtain ⟨hel, hep⟩ := optAll_map_spec (fun i => mem[i]?) draw exps hd
+        obtain ⟨htl, htp⟩ := optAll_map_spec _ names t hp
+        refine ⟨by omega, by simp [htl], exps, rfl, hel, ?_, ?_⟩
+        · intro r i hri
+          obtain ⟨e, he, her⟩ := hep r i hri
+          exact ⟨e, he, her⟩
+        · intro j f hjf
+          obtain ⟨y, hy, hty⟩ := htp j f hjf
+          cases hrow : maFieldRow cast tt names agents exps f with
+          | none => rw [hrow] at hy; simp at hy
+          | some row =>
+            rw [hrow] at hy
+            simp only [Option.map_some, Option.some.injEq] at hy
+            subst hy
+            obtain ⟨hrl, hrp⟩ := optAll_map_spec _ agents row hrow
+            refine ⟨row, by simp [hty], hrl, ?_⟩
+            intro n a hna
+            obtain ⟨y, hy, hry⟩ := hrp n a hna
+            cases hcell : maCell cast tt names exps f a with
+            | none => rw [hcell] at hy; simp at hy
+            | some v =>
+              rw [hcell] at hy
+              simp only [Option.map_some, Option.some.injEq] at hy
+              subst hy
+              unfold maCell at hcell
+              cases hc : maColumn names exps f a with
+              | none => rw [hc] at hcell; simp at hcell
+              | some es =>
+                rw [hc] at hcell
+                simp only [Option.bind_some] at hcell
+                cases hs : stackEnts es with
+                | none => rw [hs] at hcell; simp at hcell
+                | some w =>
+                  rw [hs] at hcell
+                  simp only [Option.bind_some] at hcell
+                  exact ⟨v, es, w, hry, rfl, hs, hcell⟩
+
+/-- **(i) every returned row is a stored transition, intact**: row `r` of the batch is the experience stored at the
+    drawn position `draw[r]` - for EVERY field and EVERY agent row `r` holds (member by member, `Val.rowIs`) the entry
+    that this ONE experience stores for that field and agent, before the flag cast / tensor conversion `maPost` -/
+theorem C09_masample_rows_intact (cast tt : α → α) (names : List String) (agents : List κ) (mem : List (Trans κ α))
+    (k : Int) (draw : List Nat) (batch : List (Field κ α)) (h : maSample cast tt names agents mem k draw = some batch) :
+    ∀ (r i : Nat), draw[r]? = some i → ∃ e, mem[i]? = some e ∧
+      ∀ (j : Nat) (f : String), names[j]? = some f → ∀ (n : Nat) (a : κ), agents[n]? = some a →
+        ∃ fld v w d ent, batch[j]? = some fld ∧ fld[n]? = some (a, v) ∧ maPost cast tt f w = some v ∧
+          getField names e f = some d ∧ dget d a = some ent ∧ Val.rowIs w r ent := by
+  obtain ⟨_, _, exps, _, _, hdraw, hcells⟩ := C09_masample_cells cast tt names agents mem k draw batch h
+  intro r i hri
+  obtain ⟨e, hme, her⟩ := hdraw r i hri
+  refine ⟨e, hme, ?_⟩
+  intro j f hjf n a hna
+  obtain ⟨fld, hb, _, hfld⟩ := hcells j f hjf
+  obtain ⟨v, es, w, hfn, hcol, hst, hpost⟩ := hfld n a hna
+  obtain ⟨_, hcp⟩ := optAll_map_spec _ exps es hcol
+  obtain ⟨ent, hent, hesr⟩ := hcp r e her
+  cases hg : getField names e f with
+  | none => rw [hg] at hent; simp at hent
+  | some d =>
+    rw [hg] at hent
+    simp only [Option.bind_some] at hent
+    exact ⟨fld, v, w, d, ent, hb, hfn, hpost, rfl, hent, C09_stack_rows es w hst r ent hesr⟩
+
+omit [DecidableEq κ] in
+/-- the post-processing of a non-flag field only converts the leaves; with a content-preserving conversion it is the
+    identity (dtype erased) -/
+theorem C09_masample_post_nonflag (cast tt : α → α) (f : String) (hf : isFlag f = false) (w v : Val κ α)
+    (h : maPost cast tt f w = some v) : v = Val.mapLeaves tt w := by
+  unfold maPost at h
+  rw [hf] at h
+  simpa using h.symm
+
+/-- **(ii) duplicates within a batch = duplicates in the draw**: the code draws with `random.sample`, WITHOUT
+    replacement, so the positions are pairwise distinct and two rows of one batch are two different slots of the
+    memory; (a sampler with replacement would hand out the same slot twice: `C09_masample_replacement_witness`) -/
+theorem C09_masample_no_duplicates (draw : List Nat) (hnd : draw.Nodup) (r r' i i' : Nat) (hr : draw[r]? = some i)
+    (hr' : draw[r']? = some i') (hne : r ≠ r') : i ≠ i' := by
+  intro hii
+  subst hii
+  obtain ⟨h1, e1⟩ := List.getElem?_eq_some_iff.mp hr
+  obtain ⟨h2, e2⟩ := List.getElem?_eq_some_iff.mp hr'
+  exact hne ((List.Nodup.getElem_inj_iff hnd).mp (e1.trans e2.symm))
+
+theorem C09_masample_replacement_witness :
+    maSample (κ := Nat) (α := Nat) id id ["state"] [0] [[[(0, Ent.arr 7)]], [[(0, Ent.arr 8)]]] 2 [1, 1] =
+      some [[(0, Val.arr [8, 8])]] := by rfl
+
+/-- **(iii) `sample` reads, it does not write**: the result depends on the stored transitions only, and an `_add`
+    afterwards does not change what the same draw returned before (values; aliasing is measured by the harness) -/
+theorem C09_masample_frame (cast tt : α → α) (names : List String) (agents : List κ) (mem : List (Trans κ α))
+    (k : Int) (draw : List Nat) (batch : List (Field κ α)) (h : maSample cast tt names agents mem k draw = some batch)
+    (x : Trans κ α) (hk : k ≤ (mem.length : Int)) :
+    maSample cast tt names agents (mem ++ [x]) k draw = some batch := by
+  obtain ⟨⟨hk0, _⟩, _, exps, hd, _, hdraw, _⟩ := C09_masample_cells cast tt names agents mem k draw batch h
+  unfold maSample at h ⊢
+  have hk1 : ¬ (k < 0 ∨ k > (mem.length : Int)) := by omega
+  have hk2 : ¬ (k < 0 ∨ k > ((mem ++ [x]).length : Int)) := by simp; omega
+  rw [if_neg hk1] at h
+  rw [if_neg hk2]
+  have : draw.map (fun i => (mem ++ [x])[i]?) = draw.map (fun i => mem[i]?) := by
+    apply List.map_congr_left
+    intro i hi
+    obtain ⟨r, hr, rfl⟩ := List.getElem_of_mem hi
+    obtain ⟨e, he, _⟩ := hdraw r draw[r] (List.getElem?_eq_getElem hr)
+    have := (List.getElem?_eq_some_iff.mp he).1
+    simp [List.getElem?_append_left this]
+  rw [this]; exact h
+
+/-! ### the same over the definitions generated from the source (`Gen/MaSampleGen.lean`) -/
+
+/-- what `random.sample(population, k)` guarantees about the positions it draws: `k` of them, pairwise distinct
+    (WITHOUT replacement), all inside the population -/
+structure DrawOK (n : Nat) (k : Int) (draw : List Nat) : Prop where
+  len : (draw.length : Int) = k
+  nodup : draw.Nodup
+  lt : ∀ i ∈ draw, i < n
+
+example : DrawOK 5 3 [4, 0, 2] := ⟨rfl, by decide, by decide⟩
+
+/-- every dict entry of a stored transition has distinct keys (Python dicts) -/
+def TransKeysOK (t : Trans κ α) : Prop :=
+  ∀ fd ∈ t, ∀ p ∈ fd, ∀ kv, p.2 = Ent.dict kv → (kv.map Prod.fst).Nodup
+
+omit [DecidableEq κ] in
+theorem getField_mem {β : Type} : ∀ (ns : List String) (e : List β) (f : String) (d : β), getField ns e f = some d → d ∈ e
+  | [], e, f, d, h => by cases e <;> simp [getField] at h
+  | n :: ns, [], f, d, h => by simp [getField] at h
+  | n :: ns, x :: xs, f, d, h => by
+    simp only [getField] at h
+    by_cases hn : n = f
+    · simp only [hn, if_true, Option.some.injEq] at h; subst h; simp
+    · simp only [hn, if_false] at h; exact List.mem_cons_of_mem _ (getField_mem ns xs f d h)
+
+theorem dget_mem {β : Type} : ∀ (d : List (κ × β)) (a : κ) (v : β), dget d a = some v → (a, v) ∈ d
+  | [], a, v, h => by simp [dget] at h
+  | (k', v') :: r, a, v, h => by
+    simp only [dget] at h
+    by_cases hk : k' = a
+    · simp only [hk, if_true, Option.some.injEq] at h; subst h; subst hk; simp
+    · simp only [hk, if_false] at h; exact List.mem_cons_of_mem _ (dget_mem r a v h)
+
+/-- the key hypothesis of the equalities follows from well-formed stored transitions -/
+theorem colKeysOK_of_stored (names : List String) (exps : List (Trans κ α)) (h : ∀ t ∈ exps, TransKeysOK t) :
+    ColKeysOK names exps := by
+  intro f a es hcol kv r hes
+  obtain ⟨hl, hp⟩ := optAll_map_spec _ exps es hcol
+  cases exps with
+  | nil => subst hes; simp at hl
+  | cons e rest =>
+    obtain ⟨y, hy, hy0⟩ := hp 0 e rfl
+    subst hes
+    simp only [List.getElem?_cons_zero, Option.some.injEq] at hy0
+    subst hy0
+    cases hg : getField names e f with
+    | none => rw [hg] at hy; simp at hy
+    | some d =>
+      rw [hg] at hy
+      simp only [Option.bind_some] at hy
+      exact h e (by simp) d (getField_mem names e f d hg) _ (dget_mem d a _ hy) kv rfl
+
+variable (np : α → α) (rn : α → Nat) (ex : Int → α → α) (au tt : α → α)
+
+/-- **(i) over the generated `sample`**: whenever the translated `sample(k)` returns a batch, row `r` of EVERY field and
+    EVERY agent holds, member by member, what the ONE experience stored at the drawn position `draw[r]` holds for that
+    field and agent (before the flag cast / tensor conversion): each returned row is a stored transition, intact -/
+theorem C09_source_translation_masample_rows_intact (hnp : ∀ x, np x = x) (hex : ∀ a x, ex a x = x)
+    (names : List String) (ags : List κ) (st : MA κ α) (k : Int) (draw : List Nat)
+    (hstored : ∀ t ∈ st.memory.items, TransKeysOK t) (hnames : names.Nodup) (hags : ags.Nodup)
+    (batch : List (Field κ α))
+    (h : MultiAgentReplayBuffer.sample np rn ex au tt names ags st k draw = some batch) :
+    (0 ≤ k ∧ k ≤ RingGen.MultiAgentReplayBuffer.len st) ∧ batch.length = names.length ∧
+    ∀ (r i : Nat), draw[r]? = some i → ∃ e, st.memory.items[i]? = some e ∧
+      ∀ (j : Nat) (f : String), names[j]? = some f → ∀ (n : Nat) (a : κ), ags[n]? = some a →
+        ∃ fld v w d ent, batch[j]? = some fld ∧ fld[n]? = some (a, v) ∧ maPost au tt f w = some v ∧
+          getField names e f = some d ∧ dget d a = some ent ∧ Val.rowIs w r ent := by
+  have hcol : ∀ exps, optAll (draw.map (fun i => st.memory.items[i]?)) = some exps → ColKeysOK names exps := by
+    intro exps hd
+    apply colKeysOK_of_stored
+    intro t ht
+    obtain ⟨_, hp⟩ := optAll_map_spec (fun i => st.memory.items[i]?) draw exps hd
+    obtain ⟨r, hr, rfl⟩ := List.getElem_of_mem ht
+    have hr' : r < draw.length := by omega
+    obtain ⟨y, hy, hyr⟩ := hp r draw[r] (List.getElem?_eq_getElem hr')
+    rw [List.getElem?_eq_getElem hr] at hyr
+    simp only [Option.some.injEq] at hyr
+    subst hyr
+    exact hstored _ (List.mem_of_getElem? hy)
+  rw [gen_masample_eq np rn ex au tt hnp hex names ags st k draw hcol hnames hags] at h
+  obtain ⟨hk, hl, _⟩ := C09_masample_cells au tt names ags st.memory.items k draw batch h
+  exact ⟨by simpa [RingGen.MultiAgentReplayBuffer.len, RingGen.PyDeque.len] using hk, hl,
+    C09_masample_rows_intact au tt names ags st.memory.items k draw batch h⟩
+
+omit [DecidableEq κ] in
+theorem optAll_map_total {β γ : Type} (g : β → Option γ) : ∀ (l : List β), (∀ x ∈ l, ∃ y, g x = some y) →
+    ∃ out, optAll (l.map g) = some out
+  | [], _ => ⟨[], rfl⟩
+  | b :: l, h => by
+    obtain ⟨y, hy⟩ := h b (by simp)
+    obtain ⟨out, ho⟩ := optAll_map_total g l (fun x hx => h x (List.mem_cons_of_mem _ hx))
+    exact ⟨y :: out, by rw [List.map_cons, optAll_cons, hy, ho]; rfl⟩
+
+omit [DecidableEq κ] in
+/-- **(ii) over the generated `sample`**: `random.sample` is the sampler, so under its guarantee (`DrawOK`: `k` positions
+    drawn WITHOUT replacement) the call does not raise for `k ≤ len`, two rows of one batch come from two different
+    slots, and every slot lies inside the memory -/
+theorem C09_source_translation_masample_no_duplicates (st : MA κ α) (k : Int) (draw : List Nat)
+    (hd : DrawOK st.memory.items.length k draw) :
+    (∀ (r r' i i' : Nat), draw[r]? = some i → draw[r']? = some i' → r ≠ r' → i ≠ i') ∧
+    ∃ exps, pyRandomSample st.memory.items k draw = some exps ∧ exps.length = draw.length ∧
+      ∀ (r i : Nat), draw[r]? = some i → i < st.memory.items.length ∧ exps[r]? = st.memory.items[i]? := by
+  refine ⟨fun r r' i i' h1 h2 hne => C09_masample_no_duplicates draw hd.nodup r r' i i' h1 h2 hne, ?_⟩
+  have hle : draw.length ≤ st.memory.items.length := by
+    have := (List.Nodup.subperm hd.nodup (l₂ := List.range st.memory.items.length)
+      (fun i hi => List.mem_range.mpr (hd.lt i hi))).length_le
+    simpa using this
+  obtain ⟨exps, he⟩ := optAll_map_total (fun i => st.memory.items[i]?) draw (fun i hi =>
+    ⟨st.memory.items[i]'(hd.lt i hi), List.getElem?_eq_getElem (hd.lt i hi)⟩)
+  obtain ⟨hl, hp⟩ := optAll_map_spec _ draw exps he
+  refine ⟨exps, ?_, hl, ?_⟩
+  · unfold pyRandomSample
+    have hk : ¬ (k < 0 ∨ k > (st.memory.items.length : Int)) := by have := hd.len; omega
+    rw [if_neg hk, pyAll_eq, he]
+  · intro r i hri
+    obtain ⟨y, hy, hyr⟩ := hp r i hri
+    exact ⟨hd.lt i (List.mem_of_getElem? hri), by rw [hyr, hy]⟩
+
+/-- asking for more than is stored, or for a negative number, raises (`ValueError` of `random.sample`) -/
+theorem C09_source_translation_masample_raises_beyond_len (names : List String) (ags : List κ) (st : MA κ α) (k : Int)
+    (draw : List Nat) (hk : k < 0 ∨ k > RingGen.MultiAgentReplayBuffer.len st) :
+    MultiAgentReplayBuffer.sample np rn ex au tt names ags st k draw = none := by
+  unfold MultiAgentReplayBuffer.sample pyRandomSample
+  simp only [RingGen.MultiAgentReplayBuffer.len, RingGen.PyDeque.len] at hk
+  simp [hk]
+
+/-- **(iii) over the generated methods**: `sample` returns the batch only - the translated method has no state output,
+    the deque after the call IS the deque before - and a batch handed out is a value: after a later
+    `save_to_memory_single_env` (buffer not yet full, so no slot moves) the same draw still gives the same batch -/
+theorem C09_source_translation_masample_frame (hnp : ∀ x, np x = x) (hex : ∀ a x, ex a x = x) (isnd : α → Bool)
+    (names : List String) (ags : List κ) (st : MA κ α) (m : Nat) (hinv : MAInv st m) (k : Int) (draw : List Nat)
+    (hstored : ∀ t ∈ st.memory.items, TransKeysOK t) (hnames : names.Nodup) (hags : ags.Nodup)
+    (batch : List (Field κ α)) (h : MultiAgentReplayBuffer.sample np rn ex au tt names ags st k draw = some batch)
+    (x : Trans κ α) (hx : TransKeysOK x) (hroom : st.memory.items.length < m) :
+    ∃ st', MultiAgentReplayBuffer.save_to_memory_single_env np isnd st x = some st' ∧
+      st'.memory.items = st.memory.items ++ [x] ∧
+      MultiAgentReplayBuffer.sample np rn ex au tt names ags st' k draw = some batch := by
+  obtain ⟨st', hs, _, hit, _⟩ := gen_reorg_single_eq np isnd st m hinv x
+  have hit' : st'.memory.items = st.memory.items ++ [x] := by
+    rw [hit, lastN]
+    have : (st.memory.items ++ [x]).length - m = 0 := by simp; omega
+    rw [this]; rfl
+  refine ⟨st', hs, hit', ?_⟩
+  have mkcol : ∀ (s : MA κ α), (∀ t ∈ s.memory.items, TransKeysOK t) →
+      ∀ exps, optAll (draw.map (fun i => s.memory.items[i]?)) = some exps → ColKeysOK names exps := by
+    intro s hst exps hd
+    apply colKeysOK_of_stored
+    intro t ht
+    obtain ⟨_, hp⟩ := optAll_map_spec (fun i => s.memory.items[i]?) draw exps hd
+    obtain ⟨r, hr, rfl⟩ := List.getElem_of_mem ht
+    have hr' : r < draw.length := by omega
+    obtain ⟨y, hy, hyr⟩ := hp r draw[r] (List.getElem?_eq_getElem hr')
+    rw [List.getElem?_eq_getElem hr] at hyr
+    simp only [Option.some.injEq] at hyr
+    subst hyr
+    exact hst _ (List.mem_of_getElem? hy)
+  have hst' : ∀ t ∈ st'.memory.items, TransKeysOK t := by
+    intro t ht
+    rw [hit'] at ht
+    rcases List.mem_append.mp ht with h1 | h1
+    · exact hstored t h1
+    · simp only [List.mem_singleton] at h1; subst h1; exact hx
+  rw [gen_masample_eq np rn ex au tt hnp hex names ags st k draw (mkcol st hstored) hnames hags] at h
+  rw [gen_masample_eq np rn ex au tt hnp hex names ags st' k draw (mkcol st' hst') hnames hags, hit']
+  obtain ⟨⟨_, hk⟩, _⟩ := C09_masample_cells au tt names ags st.memory.items k draw batch h
+  exact C09_masample_frame au tt names ags st.memory.items k draw batch h x hk
+
+/-- **(iv) `len` and recency, composed with the storage side**: after any history of single and vectorised
+    `save_to_memory` calls on an empty buffer of capacity `m`, `len(buffer)` is `min(m, number added)`, `sample(k)` raises
+    for `k` beyond it, and every experience a batch row comes from is one of the last `m` transitions added -/
+theorem C09_source_translation_masample_len_recent (hnp : ∀ x, np x = x) (isnd : α → Bool) (m : Nat)
+    (calls : List (MACall κ α)) (st : MA κ α) (hist : List (Trans κ α)) (hinv : MAInv st m) (hempty : st.memory.items = [])
+    (hkeys : ∀ c ∈ calls, ∀ a, c = MACall.vect a → ∀ f ∈ a, (f.map Prod.fst).Nodup)
+    (hh : maCallHist calls = some hist) :
+    ∃ st', genReorgRun np isnd st calls = some st' ∧
+      RingGen.MultiAgentReplayBuffer.len st' = ((min m hist.length : Nat) : Int) ∧
+      (∀ (names : List String) (ags : List κ) (k : Int) (draw : List Nat), k > ((min m hist.length : Nat) : Int) →
+        MultiAgentReplayBuffer.sample np rn ex au tt names ags st' k draw = none) ∧
+      ∀ (i : Nat) (e : Trans κ α), st'.memory.items[i]? = some e → e ∈ lastN m hist := by
+  obtain ⟨st', hrun, _, hit, _⟩ := C09_source_translation_reorg_last_n np isnd hnp m calls st hist hinv hkeys hh
+  rw [hempty, List.nil_append] at hit
+  have hlen : RingGen.MultiAgentReplayBuffer.len st' = ((min m hist.length : Nat) : Int) := by
+    simp only [RingGen.MultiAgentReplayBuffer.len, RingGen.PyDeque.len, hit, lastN, List.length_drop]
+    congr 1; omega
+  refine ⟨st', hrun, hlen, ?_, ?_⟩
+  · intro names ags k draw hk
+    exact C09_source_translation_masample_raises_beyond_len np rn ex au tt names ags st' k draw (Or.inr (by rw [hlen]; exact hk))
+  · intro i e hie
+    rw [hit] at hie
+    exact List.mem_of_getElem? hie
+
+example : TransKeysOK ([[(0, Ent.arr 7), (1, Ent.dict [(3, 1), (4, 2)])]] : Trans Nat Nat) := by
+  intro fd hfd p hp kv hkv
+  simp only [List.mem_singleton] at hfd
+  subst hfd
+  simp only [List.mem_cons, List.not_mem_nil, or_false] at hp
+  rcases hp with rfl | rfl
+  · cases hkv
+  · cases hkv; decide
+
+example : MultiAgentReplayBuffer.sample (κ := Nat) (α := Nat) id (fun _ => 1) (fun _ x => x) id id ["state", "done"] [0, 1]
+    { memory := { maxlen := some 3, items := [[[(0, Ent.arr 10), (1, Ent.tup [11, 12])], [(1, Ent.arr 0), (0, Ent.arr 1)]],
+                                              [[(1, Ent.tup [21, 22]), (0, Ent.arr 20)], [(0, Ent.arr 1), (1, Ent.arr 1)]]] },
+      counter := 2 } 2 [1, 0] =
+    some [[(0, Val.arr [20, 10]), (1, Val.tup [[21, 11], [22, 12]])], [(0, Val.arr [1, 1]), (1, Val.arr [1, 0])]] := by rfl
+
+end MaSample
 end Ring
